@@ -87,12 +87,37 @@ def case_key(case: dict) -> str:
     return hashlib.sha1(json.dumps(case, sort_keys=True, default=str).encode()).hexdigest()[:16]
 
 
+ALIASING: list = []  # filled by call(): (function name, argument position/name) whenever a call changed one of its arguments
+
+
+def _snap(x, depth=0):
+    """Snapshot of array / list arguments (None for things we do not track)."""
+    import numpy as np
+
+    if isinstance(x, np.ndarray):
+        return ("a", x.shape, x.dtype.str, x.tobytes() if x.dtype != object else tuple(map(repr, x.ravel().tolist())))
+    if isinstance(x, (list, tuple)) and depth < 3 and len(x) <= 64:
+        return ("l", type(x).__name__, tuple(_snap(v, depth + 1) for v in x))
+    if isinstance(x, (bool, int, float, complex, str)) or x is None:
+        return ("s", repr(x))
+    return None
+
+
 def call(fn: Callable, *a, **k):
-    """Call toqito; returns (value, None) or (None, exception)."""
+    """Call toqito; returns (value, None) or (None, exception).
+
+    Every ndarray / list argument is snapshotted before the call and compared afterwards: a function that modifies its
+    caller's arguments is recorded in ALIASING and the engine turns the case into a violation with site '<fn>:aliasing'.
+    """
+    before = [(i, _snap(v)) for i, v in enumerate(a)] + [(n, _snap(v)) for n, v in k.items()]
     try:
-        return fn(*a, **k), None
+        out = fn(*a, **k), None
     except Exception as e:  # noqa: BLE001 - the clause decides what an exception means
-        return None, e
+        out = None, e
+    for (key, snap), v in zip(before, list(a) + list(k.values())):
+        if snap is not None and _snap(v) != snap:
+            ALIASING.append((getattr(fn, "__name__", repr(fn)), key))
+    return out
 
 
 def is_deliberate_rejection(exc: BaseException) -> bool:
@@ -159,8 +184,13 @@ def _run_chunk(pid: str, clause_name: str, items: list) -> list:
 
 def run_one(clause: Clause, case: dict) -> dict:
     t0 = time.time()
+    del ALIASING[:]
     try:
         res = clause.check(case)
+        if ALIASING and isinstance(res, dict) and res.get("status") != VIOL:
+            fname, key = ALIASING[0]
+            res = viol(f"{fname} modified its caller's argument {key!r} (array / list passed by reference)", site=f"{fname}:aliasing",
+                       observed=[list(map(str, x)) for x in ALIASING[:4]])
         if not isinstance(res, dict) or "status" not in res:
             res = {"status": HERR, "nontrivial": False, "detail": f"check returned {type(res).__name__}", "obs": None, "info": {}}
     except Exception as e:  # noqa: BLE001
